@@ -756,9 +756,8 @@ class EventSource(object):
                 continue
 
             if not line or self.closed:  # empty line or closed so attempt dispatch
-                if parts:
-                    edata = u'\n'.join(parts)
-                if edata:  # data so dispatch event by appending to .events
+                if parts:  # data field(s) even when empty so dispatch event
+                    edata = u'\n'.join(parts)  # by appending to .events
                     if self.dictable:
                         try:
                             ejson = json.loads(edata, object_pairs_hook=dict)
